@@ -41,7 +41,7 @@ CHECKS += [
 
 CHECKS += [
     dict(property_id="C01", category="exploration",
-         text="Warm clusters with GTID histories built by construction (prefixes, gaps, received-unapplied tails, errant transactions), consistent or stale active lists, every request kind, up to 3 statement faults (errors, hangs, cuts before/after effect), server loss at a call boundary and ZooKeeper request faults are processed by real manager ticks; the promotion clause is evaluated by the fake server at the instant 'SET GLOBAL read_only = 0' reaches a host other than the recorded master, on ground-truth transaction sets (including what frozen members held when frozen, so that a discarded relay log cannot hide a loss); the split-brain clause is checked on fault-free ticks. Sampling of a very large space; a violation is a concrete replayable history.",
+         text="Warm clusters with GTID histories built by construction (prefixes, gaps, received-unapplied tails, errant transactions), consistent or stale active lists, every request kind, up to 3 statement faults (errors, hangs, cuts before/after effect), server loss at a call boundary and ZooKeeper request faults are processed by real manager ticks; the promotion clause is evaluated by the fake server at the instant 'SET GLOBAL read_only = 0' reaches a host other than the recorded master, on ground-truth transaction sets (including what frozen members held when frozen, so that a discarded relay log cannot hide a loss); the split-brain clause is checked on fault-free ticks. Sampling of a very large space; a violation is a concrete replayable history. Asynchronous clusters can carry the replicated heartbeat table with async_allowed_lag 20s/10min: the exception is granted only when the request being executed has cause auto and the target's measured lag is below the allowed lag.",
          design_ref="DESIGN.md section 4, C01",
          note="Trusted: fake MySQL semantics (CHANGE SOURCE purges the relay log, apply delay model), derivation of 'frozen by this tick' from the statement log (SET + verification read + first STOP IO_THREAD). Async allowed-lag exception: generated only in its own class, containment then ignores transactions younger than the allowed lag.",
          technique="property-based fault-injection testing in the cluster simulation with an instant-of-effect oracle on fake-server ground truth"),
